@@ -85,13 +85,16 @@ def stepLine (st : St) (line : String) : St × String :=
     else if k < (st.s.ps p).k then tryFire st (.doneOwing p)
     else ({ st with bad := true }, "reject")
   | ["waited"] => tryFire st .waitEnd
-  | ["closed"] => tryFire st .close
+  | ["closed"] =>
+    -- the ranger logs `closed` after close(statusChan); the collector may already have seen (and logged) the closed channel
+    if st.s.rg = .closed then (st, "ok") else tryFire st .close
   | ["collect"] => if st.s.collExited then ({ st with bad := true }, "reject") else (st, "ok")
   | ["collectCtx"] =>
     let (st', r) := tryFire st .collectCtx
     (st', r ++ " got=" ++ showGot st.s.got)
   | ["collectClosed"] =>
-    let (st', r) := tryFire st .collectClosed
+    let st0 := if st.s.rg = .waited then (tryFire st .close).1 else st
+    let (st', r) := tryFire st0 .collectClosed
     (st', r ++ " got=" ++ showGot st.s.got)
   | ["end"] =>
     let term := st.s.collExited && st.s.rg == .closed
